@@ -508,7 +508,34 @@ def interleave_fails(case):
     return None
 
 
+def utp_drivers_fail(case):
+    """the drivers called on the exported convenience class algopy.UTP give the same seeds and the same derivatives as on UTPM"""
+    x, v = np.array(case['x'], dtype=float), np.array(case['v'], dtype=float)
+    N = x.size
+
+    def f(z):
+        return z[0] * z[0] * z[N - 1] + 3.0 * z[N - 1] * z[N - 1] * z[N - 1] + z[0]
+    pairs = [('jacobian', lambda C: C.init_jacobian(x), lambda C, y: C.extract_jacobian(y)), ('jac_vec', lambda C: C.init_jac_vec(x, v), lambda C, y: C.extract_jac_vec(y)),
+             ('hessian', lambda C: C.init_hessian(x), lambda C, y: C.extract_hessian(N, y)), ('hess_vec', lambda C: C.init_hess_vec(x, v), lambda C, y: C.extract_hess_vec(N, y)),
+             ('tensor', lambda C: C.init_tensor(3, x), lambda C, y: C.extract_tensor(N, y))]
+    for nm, init, ext in pairs:
+        want_seed = init(UTPM)
+        want = np.asarray(ext(UTPM, f(want_seed)))
+        try:
+            seed = init(algopy.UTP)
+            got = np.asarray(ext(algopy.UTP, f(seed)))
+        except Exception as ex:
+            return 'utpclass-driver-exception-%s: through algopy.UTP raised %s' % (nm, type(ex).__name__ + ':' + str(ex)[:70])
+        if seed.data.shape != want_seed.data.shape or not np.array_equal(seed.data, want_seed.data):
+            return 'utpclass-driver-seed-%s: UTP.init_%s gives a coefficient array of shape %s, UTPM.init_%s %s' % (nm, nm, seed.data.shape, nm, want_seed.data.shape)
+        if got.shape != want.shape or not close(got, want, 1e-12):
+            return 'utpclass-driver-%s: the derivative obtained through algopy.UTP differs from the one through UTPM' % nm
+    return None
+
+
 def replay_case(ctx, case):
+    if case.get('op') == 'utp-drivers':
+        return utp_drivers_fail(case)
     if case.get('op') == 'interleave':
         return interleave_fails(case)
     if case.get('op') == 'nested':
@@ -527,6 +554,13 @@ def replay_case(ctx, case):
 
 
 def run(ctx):
+    for N_ in (1, 2, 3):
+        case = {'op': 'utp-drivers', 'x': rand_coeffs(ctx.rng, (N_,), -2, 2), 'v': rand_coeffs(ctx.rng, (N_,), -1, 1)}
+        ctx.evaluations += 1
+        ctx.count('utpclass-drivers')
+        f_ = utp_drivers_fail(case)
+        if f_:
+            ctx.report(case, 'failure', f_)
     rng = ctx.rng
     Nmax = 6 if ctx.tier == 'quick' else 9
     for N in range(1, Nmax + 1):
